@@ -210,7 +210,7 @@ func cmdRun(args []string) {
 		simrt.Progress.Add(1)
 		runSeed := core.Mix(*seed, k)
 		rec := &core.Record{Seed: runSeed, Mode: p.PickMode(k)}
-		c := &core.Ctx{Tape: core.NewTape(runSeed), Tier: *tier, Mode: rec.Mode, Rec: rec}
+		c := &core.Ctx{Tape: core.NewTape(runSeed), Tier: *tier, Mode: rec.Mode, Rec: rec, RunIndex: k}
 		runOne(p, c)
 		sum.Runs++
 		sum.Steps += rec.Steps
@@ -241,7 +241,7 @@ func cmdRun(args []string) {
 			hw.Write(buf[:])
 		}
 		if rec.Viol != nil {
-			rec.Plan = &core.Plan{Property: p.ID, Tier: *tier, Mode: rec.Mode, Seed: runSeed, Tape: c.Tape.Recorded(), Schedule: c.Schedule}
+			rec.Plan = &core.Plan{Property: p.ID, Tier: *tier, Mode: rec.Mode, Seed: runSeed, Tape: c.Tape.Recorded(), Schedule: c.Schedule, RunIndex: k}
 			if c.PlanOut != nil {
 				rec.Plan = c.PlanOut
 			}
@@ -315,7 +315,7 @@ func cmdPlan(args []string) {
 		emitJSON(rec)
 		return
 	}
-	c := &core.Ctx{Tape: core.ReplayTape(plan.Tape), Tier: plan.Tier, Mode: plan.Mode, Rec: rec, Replay: true, Schedule: plan.Schedule, Verbose: true, Entry: plan.Entry, Input: plan.Input}
+	c := &core.Ctx{Tape: core.ReplayTape(plan.Tape), Tier: plan.Tier, Mode: plan.Mode, Rec: rec, Replay: true, Schedule: plan.Schedule, Verbose: true, Entry: plan.Entry, Input: plan.Input, RunIndex: plan.RunIndex}
 	if plan.Tape == nil && plan.Entry == "" {
 		// a run identified by seed only (its child died before reporting the
 		// tape): regenerate it, journalling every choice as it is made
@@ -325,6 +325,7 @@ func cmdPlan(args []string) {
 		if strings.HasPrefix(plan.Mode, "@") {
 			var k uint64
 			fmt.Sscanf(plan.Mode[1:], "%d", &k)
+			c.RunIndex = k
 			c.Mode = p.PickMode(k)
 			rec.Mode = c.Mode
 		}
@@ -341,7 +342,7 @@ func cmdPlan(args []string) {
 	}
 	runOne(p, c)
 	rec.Sample = c.Trace
-	rec.Plan = &core.Plan{Property: p.ID, Tier: plan.Tier, Mode: c.Mode, Seed: plan.Seed, Tape: c.Tape.Recorded(), Schedule: c.Schedule, Entry: plan.Entry, Input: plan.Input}
+	rec.Plan = &core.Plan{Property: p.ID, Tier: plan.Tier, Mode: c.Mode, Seed: plan.Seed, Tape: c.Tape.Recorded(), Schedule: c.Schedule, Entry: plan.Entry, Input: plan.Input, RunIndex: c.RunIndex}
 	emitJSON(rec)
 }
 
